@@ -8,8 +8,10 @@
 //!      (UDP / ICMP / TCP / ARP / NDISC / SLAAC / MLD / IGMP / DHCP / DNS / raw sockets), the full
 //!      product medium x MTU x checksum capability set x scenario x IP version x variant; the
 //!      device pre-fills transmit buffers with 0xA5 so that bytes smoltcp does not write show;
-//!  (c) `egress/cat.rs`: the replies to the C03 seed / mutant catalogue on the many-socket worlds.
-//! A panic inside `Interface::poll` in (a) or (b) is reported as `C10/panic/<site>` (no inbound
+//!  (c) `egress/cat.rs`: the replies to the C03 seed / mutant catalogue on the many-socket worlds;
+//!  (d) `egress/bfsx.rs`: breadth-first exploration of event sequences (sends, inbound requests,
+//!      timers, neighbor answers, a device that takes one frame per event) on one interface.
+//! A panic inside `Interface::poll` in (a), (b) or (d) is reported as `C10/panic/<site>` (no inbound
 //! garbage is involved there: the poll dies while producing frames for well-formed traffic).
 
 mod bfsx;
@@ -189,6 +191,9 @@ pub fn run(tier: Tier) -> i32 {
     let mut rep = Report::new("C10", tier);
     let mut all = Agg::default();
     let mut shapes_total: BTreeSet<String> = BTreeSet::new();
+    // where each signature was seen (scenario / seed), so that one signature hiding several
+    // causes is visible in the evidence
+    let mut origins: BTreeMap<String, BTreeSet<String>> = BTreeMap::new();
 
     // ---------------------------------------------------------------- (b) interface scenarios
     let t0 = std::time::Instant::now();
@@ -209,6 +214,7 @@ pub fn run(tier: Tier) -> i32 {
         }
         for (sig, detail) in &o.findings {
             rep.violation(sig.clone(), detail.clone(), j.to_json(name));
+            origins.entry(sig.clone()).or_default().insert(format!("scenario {}/v{}/variant{}/{}", name, if j.v6 { 6 } else { 4 }, j.variant, medium_name(j.medium)));
         }
         per_medium.entry(medium_name(j.medium).into()).or_default().merge(&o.agg);
         *per_mtu.entry(format!("{}/ip-mtu-{}", medium_name(j.medium), j.ip_mtu)).or_insert(0) += o.frames;
@@ -413,6 +419,8 @@ pub fn run(tier: Tier) -> i32 {
             rep.machinery_errors.push(m.clone());
         }
         for (sig, (n, detail, replay)) in &o.findings {
+            let seeds: Vec<&String> = o.finding_seeds.get(sig).map(|s| s.iter().collect()).unwrap_or_default();
+            origins.entry(sig.clone()).or_default().insert(format!("catalogue world {}: {} frames, mutants of seeds {:?}", name, n, seeds));
             rep.violation(sig.clone(), format!("{} [{} emitted frames with this verdict in world {}]", detail, n, name), replay.clone());
         }
         c_total.merge(&o.agg);
@@ -437,18 +445,22 @@ pub fn run(tier: Tier) -> i32 {
         rep.samples.push(json!({"part": "catalogue", "classification": shape, "frame": fr}));
     }
 
+    for f in &rep.found {
+        origins.entry(f.viol.sig.clone()).or_default();
+    }
+    rep.cov("where_each_signature_was_seen", json!(origins));
     rep.add_count("distinct_nontrivial", shapes_total.len() as u64);
     rep.cov("frames_validated_total", json!(all.frames));
     rep.cov("distinct_frame_shapes_total", json!(shapes_total.len()));
     rep.cov("frames_per_protocol_class_total", json!(all.per_class));
     rep.cov(
         "rule",
-        json!("every buffer passed to TxToken::consume in (a) all tcp2 executions with <= k deviations per configuration, (b) the full product medium x MTU x checksum-capability set x scenario x IP version x variant of scripted single-interface scenarios, (c) one fresh many-socket world per seed / truncation / single-byte mutant of the C03 catalogue, is validated by the independent EgressMonitor. states = scenario runs + distinct tcp2 states + injections that elicited frames; transitions = polls + tcp2 events + injected frames; evaluations = frames validated; distinct_nontrivial = distinct frame shapes (protocol class + length class + flags/options)"),
+        json!("every buffer passed to TxToken::consume in (a) all tcp2 executions with <= k deviations per configuration, (b) the full product medium x MTU x checksum-capability set x scenario x IP version x variant of scripted single-interface scenarios, (c) one fresh many-socket world per seed / truncation / single-byte mutant of the C03 catalogue, (d) every event sequence up to the BFS depth on 6 interface configurations, is validated by the independent EgressMonitor. states = scenario runs + distinct tcp2 states + distinct BFS states + injections that elicited frames; transitions = polls + tcp2 events + BFS transitions + injected frames; evaluations = frames validated; distinct_nontrivial = distinct frame shapes (protocol class + length class + flags/options)"),
     );
     rep.assumptions.push("MTU sets: IPv4 {68, 69, 576, 1500}, IPv6 {1280, 1281, 1500} (IP MTU; Ethernet device MTU = IP MTU + 14), IEEE 802.15.4 device MTU {125, 127}; IPv6 scenarios are not run below 1280 (outside the quantified domain)".into());
     rep.assumptions.push("checksum capability sets: default, each of ipv4/udp/tcp/icmpv4/icmpv6 with tx off (Checksum::Rx) one at a time, all five off; a checksum is only asserted when smoltcp is the one computing it; IGMP has no capability and is always asserted".into());
     rep.assumptions.push("own addresses at emission time = union of Interface::ip_addrs() before and after the poll that emitted the frame; frames whose (src, dst, protocol) equals a packet the harness pushed through a raw socket are exempt from the source rule only".into());
-    rep.assumptions.push("tcp2: k<=1 (quick) / k<=2 (thorough) deviations; catalogue: seeds + truncations + boundary-value (quick) / all-value (thorough) single-byte mutants of the first 64 (quick) / 96 (thorough) octets, raw and with checksum fix-up; panics on received garbage in part (c) are C03's verdict and only counted here".into());
+    rep.assumptions.push("tcp2: k<=2 (quick) / k<=3 (thorough) deviations (drop / duplicate / reorder / timer-first / reader stall); event sequences: BFS to depth 4 (quick) / 6 (thorough) over 13 events; catalogue: seeds + truncations + boundary-value (quick) / all-value (thorough) single-byte mutants of the first 64 (quick) / 96 (thorough) octets, raw and with checksum fix-up; panics on received garbage in part (c) are C03's verdict and only counted here".into());
     rep.assumptions.push("trusted: the independent parser (egress/mon.rs), the RFC 1071 reference sum, the stimulus builders of the C03 harness".into());
     rep.finish()
 }
